@@ -9,6 +9,7 @@ import (
 
 	"verif/harness/chipsim"
 	"verif/harness/core"
+	"verif/harness/link"
 	"verif/harness/sim"
 )
 
@@ -394,4 +395,62 @@ func C13(c *core.Ctx) {
 	for _, i := range []int{0, len(cases) / 2, len(cases) - 1} {
 		c.Sample(map[string]any{"case": cases[i].String(), "outcome": results[i].class, "reads": results[i].reads})
 	}
+	// ---- SELECT status: 'not found' only for the statuses ReadFile.tla's Select maps to it --------------
+	c13SelectSweep(c)
+	// ---- sessions of several reads with link faults (ReadSession.tla) ------------------------------------
+	readSessionReplay(c, "C13")
+}
+
+// c13SelectSweep answers the SELECT of a present file with every status word of the classes 61..6F (and 9xxx
+// neighbours of 9000): ReadFile may report 'not found' (nil, nil) only for 6A82 and the documented 6283, must
+// return the file for 9000 and an error (or the exact file) for everything else.
+func c13SelectSweep(c *core.Ctx) {
+	rnd := rand.New(rand.NewSource(c.Rand.Int63()))
+	obj := buildTLV(3, 200, false, rnd)
+	var sws []int
+	for sw1 := 0x61; sw1 <= 0x6F; sw1++ {
+		for sw2 := 0; sw2 < 256; sw2++ {
+			if c.Thorough() || sw1 == 0x6A || sw1 == 0x62 || sw2%16 == int(c.Seed)%16 || sw2 >= 0x80 && sw2 <= 0x8F {
+				sws = append(sws, sw1<<8|sw2)
+			}
+		}
+	}
+	for sw2 := 1; sw2 < 256; sw2 += core.Pick(c, 5, 1) {
+		sws = append(sws, 0x9000|sw2)
+	}
+	bad := make([]string, len(sws))
+	core.ParallelFor(len(sws), func(i int) {
+		sw := sws[i]
+		chip, err := chipsim.New(chipsim.Config{MfFiles: map[uint16][]byte{testFid: obj}, Transport: chipsim.Transport{ExtendedLength: true}})
+		if err != nil {
+			core.Infra("C13: chipsim.New: %v", err)
+		}
+		s := sim.NewPlain(chip)
+		s.Link.Script = func(idx int, cmd []byte, l *link.Link) link.Action {
+			if len(cmd) >= 4 && cmd[1] == 0xA4 {
+				return link.Action{Name: "select-status", Respond: func(g []byte, l *link.Link) []byte { return []byte{byte(sw >> 8), byte(sw)} }}
+			}
+			return link.Pass
+		}
+		data, rerr := s.Nfc.ReadFile(testFid)
+		switch {
+		case rerr != nil:
+		case data == nil:
+			if sw != 0x6A82 && sw != 0x6283 {
+				bad[i] = "notfound"
+			}
+		case !bytes.Equal(data, obj):
+			bad[i] = "WRONG"
+		}
+	})
+	for i, b := range bad {
+		c.Case(fmt.Sprintf("select-status/%04X", sws[i]), true)
+		switch b {
+		case "notfound":
+			c.Violation("C13:notfound-although-chip-did-not-say-so", fmt.Sprintf("ReadFile returned nil, nil (file not found) although SELECT EF was answered %04X", sws[i]), map[string]any{"select_status": fmt.Sprintf("%04X", sws[i])})
+		case "WRONG":
+			c.Violation("C13:wrong-bytes", fmt.Sprintf("ReadFile returned other bytes than the file after SELECT EF was answered %04X", sws[i]), map[string]any{"select_status": fmt.Sprintf("%04X", sws[i])})
+		}
+	}
+	c.Extra["select_status_sweep"] = len(sws)
 }
